@@ -120,6 +120,32 @@ func runC10(c *Ctx) {
 			errAtom := describe(site.(ssa.Value)) + "#2 == nil"
 			c.obFollowH("220 then setConn", f, func(in ssa.Instruction) bool { return in == site }, []string{"call:(*Client).setConn"}, errAtom)
 			c.obFollowH("220 then didHello=false", f, func(in ssa.Instruction) bool { return in == site }, []string{"st:Client.didHello=false"}, errAtom)
+			// ... and a refused STARTTLS (any reply but 220: 454, 502, ...) makes startTLS fail: the dial helpers and
+			// SendMail rely on that error to stop before anything is sent in plaintext
+			failAtom := describe(site.(ssa.Value)) + "#2 != nil"
+			fb := c.F.feasibleBlocks(f, HSet(canonAtom(failAtom)))
+			nRet := 0
+			allInstrs(f, func(in ssa.Instruction) {
+				r, ok := in.(*ssa.Return)
+				if !ok || !fb[in.Block()] || in.Block() == f.Recover {
+					return
+				}
+				if !site.Block().Dominates(in.Block()) {
+					return // returns before the command (hello failed)
+				}
+				nRet++
+				rv := returnedValues(r)
+				okErr := len(rv) == 1 && !isNilConst(rv[0])
+				if okErr {
+					for _, l := range leafSources(rv[0]) {
+						if l == "nil" {
+							okErr = false
+						}
+					}
+				}
+				R.Ob(c.siteKey(in, "refused STARTTLS is an error"), c.P.InstrPos(in), okErr, "startTLS can return "+describe(rv[0])+" although the server did not answer 220: the caller goes on in plaintext (TLS stripping by answering 454)")
+			})
+			R.Ob("(*Client).startTLS/failure returns found", c.P.Pos(f.Pos()), nRet >= 1, "no return reachable when STARTTLS is refused")
 		}
 		for _, sc := range s.Find(f, "call:(*Client).setConn") {
 			d := describe(callCommon(sc).Args[1])
